@@ -574,11 +574,22 @@ def child_history(ops: List[Any], fixed: List[Tuple[str, Any]], reference: List[
                 convs.append((op[3], conv))
         elif op[0] == "fail-use" and convs:
             # a use that is cut short by an asynchronous exception (the first use of a class builds per-class functions):
-            # the same converter is an ordinary converter afterwards
+            # the same converter is an ordinary converter afterwards. The input comes from the wide battery (one value per
+            # structure), so that it is a class this converter has not met yet - the step invariant has long warmed the others
             label, conv = convs[op[1] % len(convs)]
-            name, j = battery[op[2] % len(battery)]
+            if wide:
+                wi = op[2] % len(wide[0])
+                name, j = wide[0][wi]
+            else:
+                wi, (name, j) = None, battery[op[2] % len(battery)]
             _, failed = faulty_call(c, lambda: outcome(conv, t, name, j), "interrupt", op[3])
             faults.append(["use", op[3], bool(failed)])
+            if wi is not None and not customised(label):
+                evaluations += 1
+                again = outcome(conv, t, name, j)
+                if again != wide[1][wi]:
+                    findings.append([["converter-differs-after-interrupted-use", name, label],
+                                     f"{name} {json.dumps(j)[:120]}: after a first use cut short at fault point {op[3]} the same converter gives {str(again)[:120]}, an independent fresh converter {str(wide[1][wi])[:120]}", step])
             conv = label = None
         elif op[0] == "add_input":
             battery.append((op[1], op[2]))
@@ -732,7 +743,7 @@ def _work_hist(args) -> dict:
             self.ops.append(["fail-create", mode, n if mode == "interrupt" else n % 64, kind])
 
         @precondition(lambda self: any(o[0] == "create" for o in self.ops) and sum(o[0] == "fail-use" for o in self.ops) < 4)
-        @rule(ci=st.integers(0, 100), bi=st.integers(0, 1000), n=st.one_of(st.integers(1, 40), st.integers(1, 600)))
+        @rule(ci=st.integers(0, 100), bi=st.integers(0, 1000), n=st.one_of(st.integers(1, 40), st.integers(1, 250)))
         def fail_use(self, ci, bi, n):
             self.ops.append(["fail-use", ci, bi, n])
 
@@ -892,7 +903,7 @@ def _work_fault(args) -> dict:
         mode, n, kind, second = x
         if stats["fault_histories"] % 2:
             # every other history: the creation succeeds, the first uses are cut short at fault point n, n+7, ...
-            ops = [["create", kind]] + [["fail-use", 0, bi, max(1, n % 700 + 7 * i)] for i, bi in enumerate((n % len(fixed), 11, 6, 19))] + [["create", second]]
+            ops = [["create", kind]] + [["fail-use", 0, n * 7 + 31 * i, max(1, (n + 37 * i) % 180)] for i in range(6)] + [["create", second]]
         else:
             ops = [["fail-create", mode, n, kind], ["create", second], ["create", "fresh"]]
         res = in_child(child_history, ops, fixed, ref["outcomes"], wide, ref.get("by_group"))
